@@ -20,6 +20,7 @@ open Proto Params
       map <name> <ini> <lo> <hi> <fx> <models N|-|i,j,..> <aliases N|S/a|L/a/b/..>
          -> ok | ERR:<exception class>
       view <names> <gflp>                  -> <views from the caches> ## <views from the bare list>
+      randini <u values>                   -> generate_random_floating_param_initials with the given uniform draws
       probe <values>                       -> name=<A|R per value>,... from setValue ## from Spec.accepts
       pview <gflp> <sel N|-|i,j>           -> mapper views
       pview2 <gflp> <names> <model idxs>   -> gpidx consumers, floating mask of local names, NaN fill,
@@ -214,6 +215,8 @@ def stepLine (stack : List St) (line : String) : List St × String :=
   | ["probe", xs], St.pmm s :: _ =>
       (stack, fProbe s.gps.params (s.gps.probe (pList pF xs)) ++ " ## " ++
               fProbe s.gps.params (Spec.probe s.gps.params (pList pF xs)))
+  | ["randini", u], St.ps s :: _ => (stack, fEx (fun l => sl (l.map fO)) (s.randomInitials (pList pF u)))
+  | ["randini", u], St.pmm s :: _ => (stack, fEx (fun l => sl (l.map fO)) (s.gps.randomInitials (pList pF u)))
   | ["pview", g, sel], St.pmm s :: _ => (stack, fPMM s (pList pF g) (pSel sel))
   | ["pview2", g, names, idxs], St.pmm s :: _ =>
       (stack, fPMM2 s (pList pF g) (pList id names) (pList pN idxs))
